@@ -1,7 +1,7 @@
 #!/bin/bash
 # runall.sh <quick|thorough>: run every claimed check once, sequentially; print a summary.
 tier=${1:-quick}
-cd /verif
+cd "$(dirname "$0")/.."
 for c in $(jq -r '.checks[].property_id' MANIFEST.json); do
   s=$(date +%s)
   out=$(./run.sh $c $tier 2>&1); rc=$?
